@@ -53,6 +53,16 @@ for e, fn, rep, pre in (('h_populate', 'init_table_populate_partition', ('_cds_l
         min_covers=2, checks=('--bounds-check', '--signed-overflow-check', '--div-by-zero-check'), timeout=300, functions=(fn,),
         assumptions=('_cds_lfht_add (bucket mode) / _cds_lfht_gc_bucket are used through contracts whose preconditions are the call shapes; their bodies are the subject of C08.O5.add_bucket and C07.O2.gc_bucket',),
         desc=fn + ' (loop invariant: any order, start, len): each bucket index of the share exactly once, in order, with the documented call shape (old size / parent bucket, reverse hash set first, REMOVED before unlink), inside one read-side critical section'))
+LZ = 'C09/lazy.c'
+CKZ = ('--bounds-check', '--signed-overflow-check', '--div-by-zero-check')
+for e, fns, rep, dfn, d in (
+    ('h_lazy_grow', ('cds_lfht_resize_lazy_grow', 'resize_target_grow', '__cds_lfht_resize_lazy_launch'), ('_do_cds_lfht_resize', 'cds_lfht_get_count_order_ulong'), (), 'cds_lfht_resize_lazy_grow for all power-of-two sizes / targets / maxima and growth 0..32: target only raised, stays a power of two <= max; one work item queued iff raised, nothing initiated, no destroy in progress'),
+    ('h_lazy_count', ('cds_lfht_resize_lazy_count',), ('_do_cds_lfht_resize', 'cds_lfht_get_count_order_ulong'), (), 'cds_lfht_resize_lazy_count for every power-of-two count: clamped; a grow request only raises, a shrink request only lowers (not while a grow beyond size is pending); target stays a power of two in [1,max]'),
+    ('h_count_adddel', ('ht_count_add', 'ht_count_del'), ('_do_cds_lfht_resize', 'cds_lfht_get_count_order_ulong', 'cds_lfht_resize_lazy_count', 'ht_get_split_count_index'), ('COUNT_PART',), 'ht_count_add / ht_count_del for every counter state: the resize request carries a power-of-two count, only every 2^10-th operation, only past the load thresholds'),
+    ('h_resize_cb', ('do_resize_cb',), ('_do_cds_lfht_resize', 'cds_lfht_get_count_order_ulong'), (), 'do_resize_cb: registered thread, resize mutex held around the resize, work item freed once'),
+    ('h_destroy', ('cds_lfht_destroy',), ('_do_cds_lfht_resize', 'cds_lfht_get_count_order_ulong', 'cds_lfht_is_empty', 'cds_lfht_delete_bucket', 'free_split_items_count'), (), 'cds_lfht_destroy: AUTO_RESIZE: -EPERM on a non-empty table with nothing changed, else in_progress_destroy set and exactly one destroy item queued behind the queued resizes; otherwise synchronous teardown, everything freed once'),
+):
+    OBLIGATIONS.append(Ob(name='C09.O6.' + e[2:], harness=LZ, entry=e, mode='legacy', defines=D + dfn, replace=rep, unwind=3, min_covers=1 if e == 'h_resize_cb' else 3, checks=CKZ, timeout=300, functions=fns, desc=d))
 # "every node present before a resize is still found afterwards" also depends on how a grow links each new bucket node and how a
 # shrink unlinks it: the bodies behind the call shapes of C09.O5 (shared with C08 / C07; obligations/C08.py imports this module,
 # hence the late import, resolved by engine/check.py)
